@@ -177,6 +177,10 @@ def run(ctx, rep):
     rep.rule("R08-BUILTIN", "DefaultFunction discriminants unique and < 2^BUILTIN_TAG_WIDTH; TryFrom<u8> has one arm per variant returning the variant it tests; enc/dec use the same width", floor=91)
     rep.rule("R08-BINDER", "binder encode/decode pairs touch the same fields in the same order", floor=8)
     rep.rule("R08-VERSION", "every arm/branch mentioning Plutus version n uses version n throughout", floor=9)
+    rep.rule("R08-PAYLOAD", "per constant kind both encoders and both decoders delegate the payload to the same library codec (pallas Flat impl of the payload type; Data via its CBOR fragment); local wrappers are expanded", floor=25)
+    rep.rule("R08-LOADHASH", "Deserialize for SerializableProgram accepts an entry on the hash of the decoded program's own re-encoding (to_cbor), for each Plutus version", floor=3)
+    rep.guarded("R08-PAYLOAD", lambda: r_payload(sh, rep))
+    rep.guarded("R08-LOADHASH", lambda: r_loadhash(sh, rep))
     rep.rule("R08-DERIVED", "the published hash is computed from the code in the same call; no stored hash; to_hex/to_cbor/flat chain mirrored by from_*", floor=6)
     rep.guarded("R08-TERM", lambda: r_term(sh, rep))
     rep.guarded("R08-CONST", lambda: r_const(sh, rep))
@@ -700,3 +704,114 @@ def r_derived(sh, rep):
         f = find_method(ff, "Program", fn)
         names = [last(call_name(c) or "") for c in calls_in(f["body"])]
         rep.check(callee in names, "R08-DERIVED", "chain#%s->%s" % (fn, callee), sh.loc(F, f), "%s no longer goes through %s" % (fn, callee))
+
+
+# ---------------------------------------------------------------------------------------------------------
+# R08-PAYLOAD: payload codecs — both encoders (and both decoders) of a constant kind delegate to the same library codec
+# ---------------------------------------------------------------------------------------------------------
+# spec table: the codec operations a payload of kind K goes through, besides `encode` / `decode` of its Rust type
+# (pallas_codec's Flat implementation, the only place that knows the bit layout of integers, byte strings and text)
+PAYLOAD_EXTRA_ENC = {"Data": {"encode_fragment"}}
+PAYLOAD_EXTRA_DEC = {"Data": {"decode_fragment"}}
+TAG_HELPERS = {"encode_constant", "encode_type", "decode_constant", "decode_type"}
+PLUMBING = {"map_err", "to_string", "Message", "Ok", "Err", "format!", "clone", "into", "as_ref", "deref"}
+PAYLOAD_KINDS = ["Integer", "ByteString", "String", "Bool", "Data"]
+DEC_TAG_OF = {"Integer": 0, "ByteString": 1, "String": 2, "Bool": 4, "Data": 8}
+
+
+def _ops(sh, fj, node, depth=0):
+    """names of everything called in `node`; calls to free functions of flat.rs are expanded once (a wrapper is fine,
+    what counts is which codec operations end up being used)"""
+    out = set()
+    for c in calls_in(node):
+        nm = call_name(c)
+        if not nm:
+            continue
+        l = last(nm)
+        if c["k"] == "Call" and "::" not in nm and l not in TAG_HELPERS and depth < 2:
+            try:
+                h = find_fn(fj, nm)
+            except AnchorMissing:
+                h = None
+            if h is not None and l not in ("encode_constant_value", "decode_constant_value"):
+                out |= _ops(sh, fj, h["body"], depth + 1)
+                continue
+        if l[:1].isupper():
+            continue  # enum-variant / tuple-struct constructor, not an operation
+        out.add(l)
+    return out - TAG_HELPERS - PLUMBING
+
+
+def r_payload(sh, rep):
+    fj = sh.file(F)
+    enc = find_method(fj, "Constant", "encode", trait="Encode")
+    ecv = find_fn(fj, "encode_constant_value")
+    dec = find_method(fj, "Constant", "decode", trait="Decode")
+    dcv = find_fn(fj, "decode_constant_value")
+    rep.touched(F, "encode_constant_value")
+    rep.touched(F, "decode_constant_value")
+
+    def arms_by_variant(fn, enum):
+        m = find_enum_match(fn, enum, set(PAYLOAD_KINDS) | {"Unit", "ProtoList", "ProtoPair", "List", "Pair"})
+        if m is None:
+            raise AnchorMissing("match over %s in %s" % (enum, fn["name"]))
+        return {v: arm for v, arm, alt in arm_table(m) if v}
+
+    e1 = arms_by_variant(enc, "Constant")
+    e2 = arms_by_variant(ecv, "Constant")
+    d2 = arms_by_variant(dcv, "Type")
+    # Decode for Constant matches on tag slices
+    dm = next(matches_in(dec["body"]))
+    d1 = {}
+    for a in dm["arms"]:
+        p = a["pat"]
+        if p["k"] == "PSlice" and len(p["elems"]) == 1 and p["elems"][0]["k"] == "PLit":
+            d1[int(p["elems"][0]["e"]["v"])] = a
+    for k in PAYLOAD_KINDS:
+        allowed_e = {"encode"} | PAYLOAD_EXTRA_ENC.get(k, set())
+        allowed_d = {"decode"} | PAYLOAD_EXTRA_DEC.get(k, set())
+        rows = [("Encode for Constant", e1.get(k), allowed_e), ("encode_constant_value", e2.get(k), allowed_e), ("Decode for Constant", d1.get(DEC_TAG_OF[k]), allowed_d), ("decode_constant_value", d2.get(k), allowed_d)]
+        opsets = []
+        for who, arm, allowed in rows:
+            key = "%s#%s" % (who, k)
+            if arm is None:
+                rep.bad("R08-PAYLOAD", key + "#no-arm", sh.loc(F, enc), "%s has no arm for %s" % (who, k))
+                opsets.append(None)
+                continue
+            ops = _ops(sh, fj, arm["body"])
+            opsets.append(ops)
+            extra = sorted(ops - allowed)
+            missing = sorted(allowed - ops)
+            rep.check(not extra and not missing, "R08-PAYLOAD", key, sh.loc(F, arm), "%s handles a %s payload through %s; the codec of this kind is %s (pallas_codec's Flat implementation of the payload type%s) — %s%s: encoder and decoder no longer share one definition of the bit layout" % (who, k, sorted(ops), sorted(allowed), " via the CBOR fragment" if k == "Data" else "", ("unexpected operation(s) %s" % extra) if extra else "", (" missing %s" % missing) if missing else ""), sample={"ops": sorted(ops)})
+        if opsets[0] is not None and opsets[1] is not None:
+            rep.check(opsets[0] == opsets[1], "R08-PAYLOAD", "siblings#enc#%s" % k, sh.loc(F, e2[k]), "a %s constant is encoded through %s at top level but through %s inside a list/pair: the same value gets two byte forms" % (k, sorted(opsets[0]), sorted(opsets[1])))
+        if opsets[2] is not None and opsets[3] is not None:
+            rep.check(opsets[2] == opsets[3], "R08-PAYLOAD", "siblings#dec#%s" % k, sh.loc(F, d2[k]), "a %s constant is decoded through %s at top level but through %s inside a list/pair" % (k, sorted(opsets[2]), sorted(opsets[3])))
+
+
+# ---------------------------------------------------------------------------------------------------------
+# R08-LOADHASH: a blueprint entry is accepted on the hash of the program's own re-encoding
+# ---------------------------------------------------------------------------------------------------------
+def r_loadhash(sh, rep):
+    fa = sh.file(A)
+    de = find_method(fa, "SerializableProgram", "deserialize", trait="Deserialize")
+    rep.touched(A, "Deserialize for SerializableProgram")
+    # nested visitor impl: look at every PlutusScript::<n>(arg) call inside the deserialize item
+    closures = {}
+    for n in walk(de["body"]):
+        if n["k"] == "Local" and n["pat"]["k"] == "Ident" and n.get("init") is not None and n["init"]["k"] == "Closure":
+            closures[n["pat"]["name"]] = n["init"]
+    sites = [c for c in calls_in(de["body"]) if c["k"] == "Call" and c["f"]["k"] == "Path" and last(c["f"]["p"]) == "PlutusScript" and c["args"]]
+    if len(sites) < 3:
+        raise AnchorMissing("three PlutusScript::<n>(..) hash comparisons in Deserialize for SerializableProgram")
+    for c in sites:
+        arg = c["args"][0]
+        src_nodes = [arg]
+        for x in walk(arg):
+            if x["k"] == "Call" and x["f"]["k"] == "Path" and x["f"]["p"] in closures:
+                src_nodes.append(closures[x["f"]["p"]]["body"])
+            if x["k"] == "Path" and x["p"] in closures:
+                src_nodes.append(closures[x["p"]]["body"])
+        from_program = any(y["k"] == "MethodCall" and y["m"] == "to_cbor" for s_ in src_nodes for y in walk(s_))
+        ver = re.search(r"<\s*(\d)\s*>", c["f"].get("full", "") or "")
+        rep.check(from_program, "R08-LOADHASH", "deserialize#PlutusV%s#hash-of-reencoding" % (ver.group(1) if ver else "?"), sh.loc(A, c), "the version check hashes bytes that do not come from the decoded program's own to_cbor(): an entry whose bytes differ from our encoder's form is accepted on the hash of its raw bytes, and the next save publishes different code and a different hash", sample={"arg": sh.nsrc(A, arg)[:60]})
